@@ -154,6 +154,13 @@ func (mediaType *MediaType) Validate(ctx context.Context, opts ...ValidationOpti
 				}
 			}
 		}
+	} else if vo := getValidationOptions(ctx); !vo.examplesValidationDisabled {
+		// no schema to check the values against: the example objects themselves must still be valid
+		for _, k := range componentNames(mediaType.Examples) {
+			if err := mediaType.Examples[k].Validate(ctx); err != nil {
+				return fmt.Errorf("example %s: %w", k, err)
+			}
+		}
 	}
 
 	return validateExtensions(ctx, mediaType.Extensions)
